@@ -180,7 +180,8 @@ def cut(ex, e, st):
     """ghost cut point: cut(F1, F2, ..) proves each fact in the current state and continues from a state that assumes ONLY the
     precondition and those facts (a weakening of the path condition: sound, and it keeps later queries small)."""
     facts = []
-    k = ex.ordinal("cut")
+    ids = ex.__dict__.setdefault("_cut_ids", {})          # one name per cut STATEMENT (not per path): the same cut reached on another path is the same obligation
+    k = ids.setdefault(id(e), len(ids) + 1)
     for n_, a in enumerate(e.args):
         ex.quiet += 1
         try:
@@ -238,6 +239,9 @@ def delete(ex, s, st):
     """del d[k][i] (an entry of a list held in a dict) and del d[k] (a key), d an  int -> list of ints  dict."""
     from pyvc.engine import Outcome
     from pyvc.sym import DictV
+    if len(s.targets) == 1 and isinstance(s.targets[0], ast.Name):
+        st.env.pop(s.targets[0].id, None)           # del name: the binding goes away
+        return [Outcome("normal", st)]
     if len(s.targets) != 1 or not isinstance(s.targets[0], ast.Subscript):
         raise U("del statement")
     tgt = s.targets[0]
@@ -382,6 +386,9 @@ def b_str(ex, e, st):
 
 def b_list(ex, e, st):
     v = ex.ev(e.args[0], st)
+    if isinstance(v, tuple) and v and v[0] == "dictview" and v[1] == "keys":
+        o = v[2].order
+        return Seq("list", "int", o.arr, o.n, o.start, o.delta, None)          # a fresh list of the keys in insertion order
     if isinstance(v, Coll) and v.form == "set":
         return Coll(v.name, "list")
     if isinstance(v, Coll) and v.form == "plainlist":
